@@ -1,4 +1,5 @@
 mod cachew;
+mod dequedrv;
 mod gen;
 mod sketchdrv;
 mod types;
@@ -255,6 +256,7 @@ fn main() {
         "replay" => cmd_replay(&args[2..]),
         "gen" => gen::cmd_gen(&args[2..]),
         "sketch" => sketchdrv::cmd_sketch(&args[2..]),
+        "deque" => dequedrv::cmd_deque(&args[2..]),
         other => {
             eprintln!("unknown command {}", other);
             std::process::exit(2);
